@@ -244,6 +244,43 @@ impl MemSrv {
     }
 }
 
+impl MemSrv {
+    /// A client that closes at once: the messages, the shutdown request and the exit notification are all
+    /// sent before anything is read. Returns how the server ended and everything it sent.
+    pub fn close_after(mut self, msgs: &[Value]) -> (Result<String, String>, Vec<Value>) {
+        for m in msgs {
+            let _ = self.c.sender.send(to_message(m));
+        }
+        let _ = self.c.sender.send(to_message(&self.closing.0));
+        let _ = self.c.sender.send(to_message(&self.closing.1));
+        let h = self.h.take().unwrap();
+        let t0 = std::time::Instant::now();
+        while !h.is_finished() {
+            if t0.elapsed() > WATCHDOG {
+                return (Err("server thread did not terminate after shutdown+exit".into()), vec![]);
+            }
+            std::thread::sleep(Duration::from_micros(50));
+        }
+        let mut shutdown_responses = 0u32;
+        let mut out = vec![];
+        while let Ok(m) = self.c.receiver.try_recv() {
+            let v = serde_json::to_value(&m).unwrap();
+            if v.get("method").is_none() && v["id"] == json!(2) {
+                shutdown_responses += 1;
+            } else {
+                out.push(v);
+            }
+        }
+        let r = match h.join() {
+            Ok(Ok(())) if shutdown_responses == 1 => Ok("Ok(())".into()),
+            Ok(Ok(())) => Err(format!("returned Ok(()) but the shutdown request was answered {} times", shutdown_responses)),
+            Ok(Err(e)) => Err(format!("server returned Err({}) (shutdown answered {} times)", e, shutdown_responses)),
+            Err(_) => Err("server thread panicked".into()),
+        };
+        (r, out)
+    }
+}
+
 impl Server for MemSrv {
     fn step(&mut self, msg: &Value) -> StepObs {
         if self.c.sender.send(to_message(msg)).is_err() {
